@@ -1,33 +1,34 @@
 ----------------------------- MODULE CompressGen -----------------------------
 (* emits histories (config switches, writes with several value positions, redirections and   *)
 (* concurrent traffic, reads at every reply nesting depth) for replay on the real processor. *)
-(* GenSpec: random histories (simulation).  StrataSpec: the mandatory strata, enumerated      *)
-(* completely: compression on, ONE write of every shape (value positions x redirections x     *)
-(* traffic), optionally compression switched off again, ONE read of every shape.              *)
+(* GenSpec: random histories (simulation).  AllStrataSpec: the mandatory strata, enumerated   *)
+(* completely (see below).                                                                    *)
 EXTENDS Compress, Json
 VARIABLES hist, finished,
           kind      \* simulation only: the kind of the next operation is drawn first, then its parameters (TLC draws
                     \* uniformly among successor states; without this nearly every step of a random history is a write)
 gvars == <<vars, hist, finished, kind>>
 
-Ev(a, c, k, vals, r, busy, d, n) == [a |-> a, c |-> c, k |-> k, vals |-> vals, r |-> r, busy |-> busy, d |-> d, n |-> n]
-EvConfig(c) == Ev("config", c, "", <<>>, 0, FALSE, 0, "")
-EvReconnect(n) == Ev("reconnect", "", "", <<>>, 0, FALSE, 0, n)
-EvWrite(k, vals, r, busy, n) == Ev("write", "", k, vals, r, busy, 0, n)
-EvRead(k, r, d, n) == Ev("read", "", k, <<>>, r, FALSE, d, n)
+Ev(a, c, k, vals, szs, r, busy, d, n) == [a |-> a, c |-> c, k |-> k, vals |-> vals, sz |-> szs, r |-> r, busy |-> busy, d |-> d, n |-> n]
+EvConfig(c) == Ev("config", c, "", <<>>, <<>>, 0, FALSE, 0, "")
+EvBare(on) == Ev("config", IF on THEN "enabled-bare" ELSE "disabled-bare", "", <<>>, <<>>, 0, FALSE, 0, "")
+EvReconnect(n) == Ev("reconnect", "", "", <<>>, <<>>, 0, FALSE, 0, n)
+EvWrite(k, vals, szs, r, busy, n) == Ev("write", "", k, vals, szs, r, busy, 0, n)
+EvRead(k, r, d, n) == Ev("read", "", k, <<>>, <<>>, r, FALSE, d, n)
 
 GenInit == Init /\ hist = <<EvConfig(cfg)>> /\ finished = FALSE /\ kind = ""
 Finish == /\ ~finished /\ ops = MaxOps /\ PrintT("@@BEH " \o ToJson(hist)) /\ finished' = TRUE /\ UNCHANGED <<vars, hist, kind>>
 Draw ==
   /\ kind = "" /\ ops < MaxOps
-  /\ kind' \in {"config", "write"} \cup (IF \E k \in Keys : stored[k] # <<>> THEN {"read"} ELSE {})
+  /\ kind' \in {"config", "bare", "write"} \cup (IF \E k \in Keys : stored[k] # <<>> THEN {"read"} ELSE {})
                                    \cup (IF \E n \in Nodes : conn[n] # cfg THEN {"reconnect"} ELSE {})
   /\ UNCHANGED <<vars, hist>>
 Do ==
   /\ \/ kind = "config" /\ \E c \in Configs : SetConfig(c) /\ hist' = Append(hist, EvConfig(c))
+     \/ kind = "bare" /\ \E on \in BOOLEAN : BareConfig(on) /\ hist' = Append(hist, EvBare(on))
      \/ kind = "reconnect" /\ \E n \in Nodes : Reconnect(n) /\ hist' = Append(hist, EvReconnect(n))
      \/ kind = "write" /\ \E k \in Keys, vals \in ValSeqs, r \in 0..MaxRedirects, busy \in BOOLEAN, n \in Via :
-          Write(k, vals, r, busy, n) /\ hist' = Append(hist, EvWrite(k, vals, r, busy, n))
+          \E szs \in SizeSeqs(vals) : Write(k, vals, szs, r, busy, n) /\ hist' = Append(hist, EvWrite(k, vals, szs, r, busy, n))
      \/ kind = "read" /\ \E k \in Keys, r \in 0..MaxRedirects, d \in Depths, n \in Via : Read(k, r, d, n) /\ hist' = Append(hist, EvRead(k, r, d, n))
   /\ kind' = ""
 GenNext == ~finished /\ (Draw \/ Do) /\ UNCHANGED finished
@@ -36,35 +37,56 @@ GenSpec == GenInit /\ [][GenNext \/ Finish]_gvars
 -----------------------------------------------------------------------------
 SKey == CHOOSE k \in Keys : TRUE
 Last == hist[Len(hist)]
-StrataInit == GenInit /\ cfg = "enabled"
-StrataNext ==
-  /\ ~finished
-  /\ \/ /\ Len(hist) = 1
-        /\ \E vals \in ValSeqs, r \in 0..MaxRedirects, busy \in BOOLEAN, n \in Via :
-             Write(SKey, vals, r, busy, n) /\ hist' = Append(hist, EvWrite(SKey, vals, r, busy, n))
-     \/ /\ Len(hist) = 2
-        /\ SetConfig("disabled") /\ hist' = Append(hist, EvConfig("disabled"))
-     \/ /\ Len(hist) \in {2, 3} /\ Last.a # "read"
-        /\ \E r \in 0..MaxRedirects, d \in Depths, n \in Via : Read(SKey, r, d, n) /\ hist' = Append(hist, EvRead(SKey, r, d, n))
-  /\ UNCHANGED <<finished, kind>>
-StrataFinish == /\ ~finished /\ Last.a = "read" /\ PrintT("@@BEH " \o ToJson(hist)) /\ finished' = TRUE /\ UNCHANGED <<vars, hist, kind>>
-StrataSpec == StrataInit /\ [][StrataNext \/ StrataFinish]_gvars
 
 -----------------------------------------------------------------------------
-(* The strata of connection age, enumerated completely: every node is connected under the first config; the config is  *)
-(* changed at run time; no connection or one of them is made again; ONE write over each connection; ONE read over each *)
-(* connection at every reply depth.                                                                                    *)
-ConnStrataInit == GenInit
-ConnStrataNext ==
+(* All mandatory strata from ONE run (one JVM instead of four): the family is drawn in the initial state and kept in      *)
+(* `kind`; every family bounds its own parameters, whatever the constants are, so that the families do not depend on each *)
+(* other's bounds: "s-base" (config on, one write of every shape, optionally switched off, one read of every shape),      *)
+(* "s-conn" (connection age), "s-bare" (refused updates), "s-size" (absolute sizes).                                      *)
+Zero(vals) == [i \in 1..Len(vals) |-> 0]
+One == {vals \in ValSeqs : Len(vals) = 1}
+AllStrataInit ==
+  /\ Init /\ hist = <<EvConfig(cfg)>> /\ finished = FALSE
+  /\ \/ kind = "s-base" /\ cfg = "enabled"
+     \/ kind = "s-conn"
+     \/ kind = "s-bare" /\ cfg # "absent"
+     \/ kind = "s-size" /\ cfg = "enabled"
+Tagged(h) == [h EXCEPT ![1] = [h[1] EXCEPT !.k = kind]]     \* the family travels in the first event
+AllStrataNext ==
   /\ ~finished
-  /\ \/ /\ Len(hist) = 1
-        /\ \E c \in Configs : SetConfig(c) /\ hist' = Append(hist, EvConfig(c))
-     \/ /\ Len(hist) = 2
-        /\ \E n \in Nodes : Reconnect(n) /\ hist' = Append(hist, EvReconnect(n))
-     \/ /\ Len(hist) \in {2, 3} /\ Last.a # "write"
-        /\ \E vals \in ValSeqs, n \in Via : Write(SKey, vals, 0, FALSE, n) /\ hist' = Append(hist, EvWrite(SKey, vals, 0, FALSE, n))
-     \/ /\ Last.a = "write"
-        /\ \E d \in Depths, n \in Via : Read(SKey, 0, d, n) /\ hist' = Append(hist, EvRead(SKey, 0, d, n))
+  /\ \/ /\ kind = "s-base"
+        /\ \/ /\ Len(hist) = 1
+              /\ \E vals \in ValSeqs, r \in 0..MaxRedirects, busy \in BOOLEAN :
+                   Write(SKey, vals, Zero(vals), r, busy, "any") /\ hist' = Append(hist, EvWrite(SKey, vals, Zero(vals), r, busy, "any"))
+           \/ /\ Len(hist) = 2
+              /\ SetConfig("disabled") /\ hist' = Append(hist, EvConfig("disabled"))
+           \/ /\ Len(hist) \in {2, 3} /\ Last.a # "read"
+              /\ \E r \in 0..MaxRedirects, d \in Depths : Read(SKey, r, d, "any") /\ hist' = Append(hist, EvRead(SKey, r, d, "any"))
+     \/ /\ kind = "s-conn"
+        /\ \/ /\ Len(hist) = 1
+              /\ \E c \in Configs : SetConfig(c) /\ hist' = Append(hist, EvConfig(c))
+           \/ /\ Len(hist) = 2
+              /\ \E n \in Nodes : Reconnect(n) /\ hist' = Append(hist, EvReconnect(n))
+           \/ /\ Len(hist) \in {2, 3} /\ Last.a \notin {"write", "read"}
+              /\ \E vals \in One, n \in Nodes :
+                   Write(SKey, vals, Zero(vals), 0, FALSE, n) /\ hist' = Append(hist, EvWrite(SKey, vals, Zero(vals), 0, FALSE, n))
+           \/ /\ Last.a = "write"
+              /\ \E d \in Depths, n \in Nodes : Read(SKey, 0, d, n) /\ hist' = Append(hist, EvRead(SKey, 0, d, n))
+     \/ /\ kind = "s-bare"
+        /\ \/ /\ Len(hist) = 1
+              /\ \E vals \in One : Write(SKey, vals, Zero(vals), 0, FALSE, "any") /\ hist' = Append(hist, EvWrite(SKey, vals, Zero(vals), 0, FALSE, "any"))
+           \/ /\ Len(hist) = 2
+              /\ \E on \in BOOLEAN : BareConfig(on) /\ hist' = Append(hist, EvBare(on))
+           \/ /\ Len(hist) = 3
+              /\ \E d \in Depths : Read(SKey, 0, d, "any") /\ hist' = Append(hist, EvRead(SKey, 0, d, "any"))
+     \/ /\ kind = "s-size"
+        /\ \/ /\ Len(hist) = 1
+              /\ \E vals \in One, r \in 0..1 : \E szs \in SizeSeqs(vals) :
+                   /\ szs[1] > 0
+                   /\ Write(SKey, vals, szs, r, FALSE, "any") /\ hist' = Append(hist, EvWrite(SKey, vals, szs, r, FALSE, "any"))
+           \/ /\ Len(hist) = 2
+              /\ \E r \in 0..1, d \in Depths : Read(SKey, r, d, "any") /\ hist' = Append(hist, EvRead(SKey, r, d, "any"))
   /\ UNCHANGED <<finished, kind>>
-ConnStrataSpec == ConnStrataInit /\ [][ConnStrataNext \/ StrataFinish]_gvars
+AllStrataFinish == /\ ~finished /\ Last.a = "read" /\ PrintT("@@BEH " \o ToJson(Tagged(hist))) /\ finished' = TRUE /\ UNCHANGED <<vars, hist, kind>>
+AllStrataSpec == AllStrataInit /\ [][AllStrataNext \/ AllStrataFinish]_gvars
 =============================================================================
